@@ -221,6 +221,12 @@ func c17Scenarios(tier mc.Tier) []mc.Scenario {
 	add(&c17Scenario{name: "validate-D", pattern: "D", entry: "validate", callers: 1, inject: 1, fetcher: "http"})
 	add(&c17Scenario{name: "validate-cache-DG", pattern: "DG", entry: "validate", callers: 1, cache: true, inject: 1, fetcher: "http"})
 	add(&c17Scenario{name: "two-callers-fakefetcher-D", pattern: "D", entry: "validate", callers: 2, fetcher: "fake"})
+	// two callers with contexts of their own: one of them is cancelled at some point (see c17_cancelone.go)
+	for _, sc := range []*c17Scenario{{name: "two-callers-own-contexts-F", pattern: "F", cache: false}, {name: "two-callers-own-contexts-cache-F", pattern: "F", cache: true}, {name: "two-callers-own-contexts-L", pattern: "L", cache: false}} {
+		sc.entry, sc.callers, sc.fetcher = "validate", 2, "http"
+		out = append(out, mc.Scenario{Name: "C17-" + sc.name, Bound: -1, Body: sc.bodyCancelOne,
+			Params: map[string]string{"pattern": sc.pattern, "entry": "validate", "callers": "2", "cache": fmt.Sprint(sc.cache), "cancellation": "one caller's own context, at most once, at every quiescent point"}})
+	}
 	// two callers of one validator with different signing times: per-call options must not leak between calls
 	add(&c17Scenario{name: "two-callers-different-signing-times-I", pattern: "I", entry: "validate", callers: 2, fetcher: "http", stCaller: []bool{false, true}})
 	add(&c17Scenario{name: "two-callers-different-signing-times-IF", pattern: "IF", entry: "validate", callers: 2, fetcher: "http", stCaller: []bool{true, false}})
@@ -451,6 +457,13 @@ func (s *c17Scenario) body(c *mc.Ctx) {
 			if why := revocationListDamage(part.rl); why != "" {
 				c.Fail(sigBase+" shared CRL bundle modified by a check ("+part.n+")", "a bundle shared between calls (cache / fetcher) was written to: %s CRL: %s", part.n, why)
 			}
+		}
+	}
+	// the certificate objects belong to the callers (two callers share them): a check leaves them as they were
+	for i, x := range chain {
+		if why := certificateDamage(x); why != "" {
+			c.Fail(sigBase+" the callers' certificate was modified by a check", "position %d: %s", i, why)
+			break
 		}
 	}
 	for k := 0; k < s.callers; k++ {
